@@ -7,18 +7,86 @@ namespace Pulsar
 /-- strict acceptance implies plain acceptance with the same value (WellTyped streams are in the
     reference decoder's domain). -/
 theorem C03_strict_implies_reference (S : Schema) (o : UOpts) (i : Nat) (m0 : Val) (bs : Bytes) (v : Val)
-    (h : specUnmarshalStrict S o i m0 bs = .ok v) : specUnmarshal S o i m0 bs = .ok v := sorry
+    (h : specUnmarshalStrict S o i m0 bs = .ok v) : specUnmarshal S o i m0 bs = .ok v :=
+  strict_implies_reference S o i m0 bs v h
 
-/-- For every well-typed stream (records in any order and multiplicity, packed or unpacked, non-minimal
-    varints, partial / duplicated / reordered map entries, unknown records anywhere), decoding into a
-    generated message — fresh, or with Merge into any well-formed message — succeeds and yields exactly
-    the reference decoder's value: last scalar wins, repeated concatenates, repeated singular / oneof
-    message occurrences merge, a later oneof member replaces an earlier one, map entries take
-    defaults / last value, unknown fields are retained in order. -/
-theorem C03_decode_eq_reference (S : Schema) (hS : S.WF = true) (o : UOpts) (i : Nat) (m0 : Val) (bs : Bytes) (v : Val)
-    (hi : i < S.msgs.length) (hl : bs.length < 9223372036854775808)
+/-- C03 with the receiver required to be non-nil (the only extra hypothesis; neither `S.WF` nor
+    `i < S.msgs.length` is needed). Same `Val`, same nil/non-nil flags. -/
+theorem C03_decode_eq_reference (S : Schema) (_hS : S.WF = true) (o : UOpts) (i : Nat) (m0 : Val)
+    (bs : Bytes) (v : Val)
+    (_hi : i < S.msgs.length) (hl : bs.length < 9223372036854775808)
     (hm : o.merge = false ∨ msgOK S false (m0.depth + 1) i m0 = true)
+    (hnn : o.merge = false → m0.isNone = false)
     (h : specUnmarshalStrict S o i m0 bs = .ok v) :
-    implUnmarshal S o i m0 bs = .ok v := sorry
+    implUnmarshal S o i m0 bs = .ok v :=
+  unmarshal_agree S o i m0 bs v hl hnn hm h
+
+/-- The usual call: decoding into a fresh message. -/
+theorem C03_decode_eq_reference_fresh (S : Schema) (o : UOpts) (i : Nat) (bs : Bytes) (v : Val)
+    (ho : o.merge = false) (hl : bs.length < 9223372036854775808)
+    (h : specUnmarshalStrict S o i (emptyMsg S i) bs = .ok v) :
+    implUnmarshal S o i (emptyMsg S i) bs = .ok v :=
+  unmarshal_agree S o i _ bs v hl (fun _ => rfl) (Or.inl ho) h
+
+/-! ### non-vacuity -/
+
+/-- msg0 { msg1 f = 1; }   msg1 { int32 a = 1; int32 b = 2; } -/
+def c03Schema : Schema :=
+  ⟨[⟨[⟨1, .message 1, .singular⟩]⟩, ⟨[⟨1, .scalar .int32, .singular⟩, ⟨2, .scalar .int32, .singular⟩]⟩]⟩
+
+/-- `f{a:7} f{b:9}`: the singular message field occurs twice and must merge. -/
+def c03Bytes : Bytes := [0x0a, 0x02, 0x08, 0x07, 0x0a, 0x02, 0x10, 0x09]
+
+example : specUnmarshalStrict c03Schema {} 0 (emptyMsg c03Schema 0) c03Bytes
+    = .ok (.msg [.msg [.bits 7, .bits 9] []] []) := by rfl
+
+example : implUnmarshal c03Schema {} 0 (emptyMsg c03Schema 0) c03Bytes
+    = .ok (.msg [.msg [.bits 7, .bits 9] []] []) :=
+  C03_decode_eq_reference_fresh c03Schema {} 0 c03Bytes _ rfl (by decide) (by rfl)
+
+example : WellTyped c03Schema 0 c03Bytes := by rfl
+
+/-- msg0 { repeated int32 xs = 1 [packed]; map<int32,int32> m = 2; oneof { int32 p = 3; msg1 q = 4; } }
+    msg1 { int32 a = 1; } -/
+def c03Schema2 : Schema :=
+  ⟨[⟨[⟨1, .scalar .int32, .repeated true⟩, ⟨2, .scalar .int32, .map .int32⟩,
+      ⟨3, .scalar .int32, .oneof 0⟩, ⟨4, .message 1, .oneof 0⟩]⟩,
+    ⟨[⟨1, .scalar .int32, .singular⟩]⟩]⟩
+
+/-- packed run `xs:[1,2]`, unknown field 15 (varint 5), unpacked `xs:3`, map entry with the value
+    before the key and a foreign record inside `{v:3, 9:0, k:1}`, oneof `p:5` then `q{a:7}`, `q{}`. -/
+def c03Bytes2 : Bytes :=
+  [0x0a, 0x02, 0x01, 0x02,  0x78, 0x05,  0x08, 0x03,
+   0x12, 0x06, 0x10, 0x03, 0x48, 0x00, 0x08, 0x01,
+   0x18, 0x05,  0x22, 0x02, 0x08, 0x07,  0x22, 0x00]
+
+-- (`consumeValue` is defined by well-founded recursion, so this one is unfolded by `simp`, not `rfl`)
+theorem c03_example2 : specUnmarshalStrict c03Schema2 {} 0 (emptyMsg c03Schema2 0) c03Bytes2
+    = .ok (.msg [.list true [.bits 1, .bits 2, .bits 3], .map true [.entry (.bits 1) (.bits 3)],
+                 .none, .one (.msg [.bits 7] [])] [0x78, 0x05]) := by
+  simp [specUnmarshalStrict, specDecodeInto, specDecodeLoop, specEntryLoop, specPackedLoop, specReadScalar,
+    consumeTag, consumeValue, consumeVarint, consumeVarintAux, c03Schema2, c03Bytes2, emptyMsg, Schema.msg,
+    findField, FieldDesc.zero, Kind.specWireType, Kind.packable, Kind.isBlob, Val.slot, Val.slots,
+    Val.setSlot, Val.elems, Val.unknown, mapPut, kbeqOf, clearGroup, FieldDesc.group?, Val.isNone,
+    Val.getBits, Val.key]
+
+example : implUnmarshal c03Schema2 {} 0 (emptyMsg c03Schema2 0) c03Bytes2
+    = .ok (.msg [.list true [.bits 1, .bits 2, .bits 3], .map true [.entry (.bits 1) (.bits 3)],
+                 .none, .one (.msg [.bits 7] [])] [0x78, 0x05]) :=
+  C03_decode_eq_reference_fresh c03Schema2 {} 0 c03Bytes2 _ rfl (by decide) c03_example2
+
+/-- a known field with a foreign wire type is outside the domain (strict) but inside the reference
+    decoder's (kept as an unknown field): the premise of C03 is not trivially everything. -/
+example : specUnmarshalStrict c03Schema {} 1 (emptyMsg c03Schema 1) [0x0d, 0, 0, 0, 0]
+    = .err .wrongWireType := by rfl
+example : specUnmarshal c03Schema {} 1 (emptyMsg c03Schema 1) [0x0d, 0, 0, 0, 0]
+    = .ok (.msg [.bits 0, .bits 0] [0x0d, 0, 0, 0, 0]) := by
+  simp [specUnmarshal, specDecodeInto, specDecodeLoop, consumeTag, consumeValue, consumeVarint,
+    consumeVarintAux, c03Schema, emptyMsg, Schema.msg, findField, FieldDesc.zero, Kind.specWireType,
+    Kind.isBlob, Val.slots, Val.unknown]
 
 end Pulsar
+
+#print axioms Pulsar.C03_strict_implies_reference
+#print axioms Pulsar.C03_decode_eq_reference
+#print axioms Pulsar.C03_decode_eq_reference_fresh
